@@ -89,7 +89,7 @@ func (c *Ctx) stringHelperClass(fn *types.Func) (class, why string) {
 		return "", "helper is not a straight-line encoder (a data-dependent shortcut emits text the encoder never saw)"
 	}
 	p := paths[0]
-	ret := p.Vals[0]
+	ret := c.normByteStrings(p.Vals[0])
 	// shape A: string(json.Marshal(x)#0)
 	if cv, ok := ret.(TConv); ok && isStringType(cv.To) {
 		if pr, ok := cv.X.(TProj); ok && pr.K == 0 {
@@ -120,7 +120,16 @@ func (c *Ctx) stringHelperClass(fn *types.Func) (class, why string) {
 				return "", "more than one encoder"
 			}
 			encT, bufT = *s.Call, s.Call.Args[0]
-			if _, ok := bufT.(TAddr); !ok {
+			ownBuf := false
+			switch b := bufT.(type) {
+			case TAddr:
+				ownBuf = true // &buffer of a local
+			case TBuiltin:
+				ownBuf = b.Name == "new" // new(bytes.Buffer)
+			case TCall:
+				ownBuf = b.Fun != nil && (b.Fun.FullName() == "bytes.NewBuffer" || b.Fun.FullName() == "bytes.NewBufferString")
+			}
+			if !ownBuf {
 				return "", "the encoder does not write into the helper's own local buffer"
 			}
 		case "(*encoding/json.Encoder).SetEscapeHTML":
